@@ -46,6 +46,15 @@ GLOM_DEBUG = False if (GLOM_DEBUG in ('', '0', 'false')) else True
 
 TRACE_WIDTH = max(get_wrap_width(max_width=110), 50)   # min width
 
+# verification instrumentation: a harness may install a callback that is told about scope
+# events; it is only honoured when the GLOM_VERIF environment variable is set
+_verif_hook = None
+
+
+def _verif_install(hook):
+    global _verif_hook
+    _verif_hook = hook if os.getenv('GLOM_VERIF') else None
+
 PATH_STAR = True
 # should * and ** be interpreted as parallel traversal in Path.from_text()?
 # Changed to True in 23.1, this option to disable will go away soon
@@ -2327,6 +2336,8 @@ def chain_child(scope):
     # previous failed branches are forgiven as the
     # scope is re-wired into a new stack
     del nxt_in_chain.maps[0][CHILD_ERRORS][:]
+    if _verif_hook is not None:
+        _verif_hook('chain', scope, nxt_in_chain)
     return nxt_in_chain
 
 
@@ -2350,6 +2361,8 @@ def _glom(target, spec, scope):
         MIN_MODE: pmap[MIN_MODE],
     })
     pmap[LAST_CHILD_SCOPE] = scope
+    if _verif_hook is not None:
+        _verif_hook('enter', scope, parent)
 
     try:
         if type(spec) is TType:  # must go first, due to callability
@@ -2369,6 +2382,8 @@ def _glom(target, spec, scope):
                 cur_scope.maps[1][CHILD_ERRORS].append(cur_scope)
                 cur_scope.maps[0][CUR_ERROR] = e
                 cur_scope = cur_scope[UP]
+        if _verif_hook is not None:
+            _verif_hook('error', scope, e)
         raise
 
 
